@@ -16,7 +16,7 @@ def sections(notes):
     return out
 def describe(notes, orig_name, idx, npatches):
     secs=sections(notes)
-    m3=re.match(r'r([345678])([A-Z]\d?)(\d)patch\.diff', orig_name)
+    m3=re.match(r'r([3456789])([A-Z]\d?)(\d)patch\.diff', orig_name)
     if m3:
         # group notes: take the part of the file belonging to the group, then the section "p<k> ..."
         rnd,g,k=m3.group(1),m3.group(2),m3.group(3)
@@ -73,7 +73,7 @@ for d in sorted(glob.glob(INC+'/C*')):
         if p['patch']!=orig:
             shutil.copy(f'{d}/{orig}', f'{out}/{orig}.as-written-against-pinned-commit.txt')
         for k in failing: shutil.copy(f'{d}/{k}', f'{out}/{k}')
-        title,needs=describe(notes, orig if (orig.startswith('r3') or orig.startswith('r4') or orig.startswith('r5') or orig.startswith('r6') or orig.startswith('r7') or orig.startswith('r8')) else (orig[2:] if orig.startswith('r2') else orig), len(changes), len(origs))
+        title,needs=describe(notes, orig if (orig.startswith('r3') or orig.startswith('r4') or orig.startswith('r5') or orig.startswith('r6') or orig.startswith('r7') or orig.startswith('r8') or orig.startswith('r9')) else (orig[2:] if orig.startswith('r2') else orig), len(changes), len(origs))
         suite_note='module test suite passes with the patch (demonstration file removed)'
         if pid=='C09' and orig=='patch2.diff':
             suite_note+='; TestThrottling of pipe/fork (wall-clock assertion 99ms < gap < 110ms) failed in 2 of 5 runs under load and is unrelated to the change (it fails intermittently on the unpatched tree too)'
@@ -95,7 +95,7 @@ for d in sorted(glob.glob(INC+'/C*')):
              'suite_with_patch': suite_note + ('; ' + p['suite_note'] if p.get('suite_note') else ''),
              'demo_output_tail': {k:(p.get('demo_output',{}).get(k,'')[-400:]) for k in failing},
           },
-          'round': 8 if orig.startswith('r8') else 7 if orig.startswith('r7') else 6 if orig.startswith('r6') else 5 if orig.startswith('r5') else 4 if orig.startswith('r4') else (3 if orig.startswith('r3') else (2 if orig.startswith('r2') else 1)),
+          'round': 9 if orig.startswith('r9') else 8 if orig.startswith('r8') else 7 if orig.startswith('r7') else 6 if orig.startswith('r6') else 5 if orig.startswith('r5') else 4 if orig.startswith('r4') else (3 if orig.startswith('r3') else (2 if orig.startswith('r2') else 1)),
           'caught_by': {'check': f'/verif/bin/govc check -property {pid}', 'failed_obligations': p['check_failed_obligations'], 'unverifiable': p['check_unverifiable']},
         })
     json.dump({'property': pid, 'changes': changes, 'apply': f'git -C /repo apply /verif/seeded/{pid}/<patch>', 'undo': 'git -C /repo checkout -- .'}, open(out+'/meta.json','w'), indent=1)
